@@ -226,59 +226,58 @@ class Comparison:
             na = rename_try(na, try_names(na))
             ne = rename_try(ne, try_names(ne))
             extra, missing, exp_gens = diff_bags(na, ne)
-            counterexample = ""
-            if extra or missing:
-                # semantic back-stop: interpret both normal forms over small finite models
-                fixed = {}
-                if "nonempty(FLAG)" in asm:
-                    fixed["FLAG"] = asm["nonempty(FLAG)"]
-                if "P is None" in asm:
-                    fixed["P"] = None if asm["P is None"] else "p"
-                status, info = semantic_compare(na, ne, fixed)
-                if status == "equal":
-                    for text in exp_gens:
-                        self.res.add(self.rule, f"{self.key}::{what}{suffix} {short(text)}", True, f"computed as specified (spelled differently; equal on all {info} finite models)", self.where, kind=kind)
-                    self.res.add(self.rule, f"{self.key}::{what}{suffix} nothing else", True, "no further element", self.where, kind=kind)
-                    continue
-                if status == "differ":
-                    counterexample = " Counterexample " + info
-                    if not missing:
-                        all_ok = False
-                        self.res.add(self.rule, f"{self.key}::{what}{suffix} nothing else", False, f"{what}: differs from the specification." + counterexample, self.where, kind=kind)
-                        continue
-            imprecise = list(dict.fromkeys(na_.opaque + self.ev.problems))
-            cut = any("cut-short" in x for x in extra)
+            if not extra and not missing:
+                for text in exp_gens:
+                    self.res.add(self.rule, f"{self.key}::{what}{suffix} {short(text)}", True, "computed as specified", self.where, kind=kind)
+                self.res.add(self.rule, f"{self.key}::{what}{suffix} nothing else", True, "no further element", self.where, kind=kind)
+                continue
+            # the normal forms differ as text: interpret both over small finite models (semantic back-stop)
+            fixed = {}
+            if "nonempty(FLAG)" in asm:
+                fixed["FLAG"] = asm["nonempty(FLAG)"]
+            if "P is None" in asm:
+                fixed["P"] = None if asm["P is None"] else "p"
+            status, info = semantic_compare(na, ne, fixed)
+            if status == "equal":
+                for text in exp_gens:
+                    self.res.add(self.rule, f"{self.key}::{what}{suffix} {short(text)}", True, f"computed as specified (spelled differently; equal on all {info} finite models)", self.where, kind=kind)
+                self.res.add(self.rule, f"{self.key}::{what}{suffix} nothing else", True, "no further element", self.where, kind=kind)
+                continue
+            all_ok = False
+            counterexample = " Counterexample " + info if status == "differ" else ""
+            imprecise = list(dict.fromkeys(na_.opaque + self.ev.problems)) or [f"the difference cannot be evaluated on finite models ({info})"]
             # definite, whatever else is imprecise: a `raise` inside a loop ends the loop at that element
             in_loop = lambda n: [g for g in (n[1] if n[0] == "bag" else ()) if g[1][0] == "raise" and g[2] and g[1][1] != ("reraise",)]  # noqa: E731
-            if in_loop(na) and not in_loop(ne):
-                all_ok = False
+            loop_raise = in_loop(na) and not in_loop(ne)
+            if loop_raise:
                 g = in_loop(na)[0]
-                self.res.add(self.rule, f"{self.key}::{what}{suffix} {short(canon_gen(g, {}, 0))}", False, f"{what}: `{short(canon_gen(g, {}, 0), 300)}` raises inside the loop: the remaining elements are never processed", self.where, kind="dominance")
+                self.res.add(self.rule, f"{self.key}::{what}{suffix} {short(canon_gen(g, {}, 0))}", False, f"{what}: `{short(canon_gen(g, {}, 0), 300)}` raises inside the loop: the remaining elements are never processed." + counterexample, self.where, kind="dominance")
+            reported = bool(loop_raise)
             for text in exp_gens:
-                ok = text not in missing
                 construct = f"{self.key}::{what}{suffix} {short(text)}"
-                if ok:
+                if text not in missing:
                     self.res.add(self.rule, construct, True, "computed as specified", self.where, kind=kind)
                     continue
-                all_ok = False
                 need = syms_of(ne) if len(exp_gens) == 1 else syms_named(text, syms_of(ne))
                 lost = sorted(need - syms_of(na))
-                if imprecise and not lost and not counterexample:
+                if not counterexample and not lost:
+                    # neither a counterexample nor a lost input: no verdict on this part
                     self.res.undecide(self.rule, construct, "cannot be compared precisely: " + "; ".join(imprecise[:3]), self.where)
                     continue
                 why = f"does not depend on {', '.join(lost)} at all; " if lost else ""
                 got = "; ".join(short(x, 600) for x in extra[:2]) or "nothing"
-                self.res.add(self.rule, construct, False, f"{what}: the specified part `{short(text, 300)}` is not computed ({why}found instead: {got})" + (" - a loop is cut short by `break`" if cut else "") + counterexample, self.where, kind=kind)
+                cut = " - a loop is cut short by `break`" if any("cut-short" in x for x in extra) else ""
+                self.res.add(self.rule, construct, False, f"{what}: the specified part `{short(text, 300)}` is not computed ({why}found instead: {got}){cut}." + counterexample, self.where, kind=kind)
+                reported = True
             construct = f"{self.key}::{what}{suffix} nothing else"
-            if not extra or missing:
+            if missing and (reported or not counterexample):
                 # extras next to a missing part are reported there
                 self.res.add(self.rule, construct, True, "no further element", self.where, kind=kind)
-            elif imprecise and not counterexample:
-                all_ok = False
-                self.res.undecide(self.rule, construct, "cannot be compared precisely: " + "; ".join(imprecise[:3]), self.where)
+            elif counterexample:
+                got = "; ".join(short(x, 300) for x in extra[:2])
+                self.res.add(self.rule, construct, False, f"{what}: " + (f"additionally computes `{got}`, which the specification does not contain." if got else "differs from the specification.") + counterexample, self.where, kind=kind)
             else:
-                all_ok = False
-                self.res.add(self.rule, construct, False, f"{what}: additionally computes `{'; '.join(short(x, 300) for x in extra[:2])}`, which the specification does not contain." + counterexample, self.where, kind=kind)
+                self.res.undecide(self.rule, construct, "cannot be compared precisely: " + "; ".join(imprecise[:3]), self.where)
         return all_ok
 
 
